@@ -110,9 +110,20 @@ def run(res, tier, seed):
     for sc, fmt, scid in (("noaa17", "gac_klm", 6), ("noaa18", "lac_klm", 7), ("noaa12", "gac_pod", 5)):
         iv = rng.choice(TSM_AFFECTED_INTERVALS_KLM[2])
         plans.append((sc, fmt, scid, iv, "inside"))
+    # NOAA-14 with the clock-drift correction on (real table): the gate must follow the REPORTED (corrected) times whatever
+    # accessor is called first -- here the channels are requested before any coordinate
+    drift_iv = [iv for iv in TSM_AFFECTED_INTERVALS_POD[3] if 1996 <= iv[0].year <= 2002]
+    for iv in rng.sample(drift_iv, min(len(drift_iv), 2 if tier == "quick" else 6)):
+        for where in ("start", "end", "start+1", "end-1"):
+            plans.append(("noaa14", "gac_pod", 3, iv, where + "/drift"))
     n = 24
     W_by = {}
+    scratch = common.scratch_dir()
+    tle_dir, tle_name = impl.make_tle_dir(scratch.__enter__())
     for sc, fmt, scid, iv, where in plans:
+        drift = where.endswith("/drift")
+        where = where.split("/")[0]
+        kw = dict(adjust_clock_drift=drift, tle_dir=tle_dir, tle_name=tle_name, tle_thresh=40000) if drift else dict(adjust_clock_drift=False)
         fam = l1b.FMT[fmt]["family"]
         per = 500 if l1b.FMT[fmt]["res"] == "gac" else 1000 / 6.0
         span = int((n - 1) * per)
@@ -147,14 +158,21 @@ def run(res, tier, seed):
         start = tg.dt_of(first)
         lines = l1b.default_lines(fmt, n, start, counts=lambda i: samples_by_line[i], switch=[(i // 3) % 3 for i in range(n)],
                                   qual=[(1 << 31) if i == 5 else 0 for i in range(n)])
-        ctx = dict(spacecraft=sc, fmt=fmt, interval=[str(iv[0]), str(iv[1])], position=where, first_line=str(start), lines=n, seed=seed)
+        ctx = dict(spacecraft=sc, fmt=fmt, interval=[str(iv[0]), str(iv[1])], position=where, first_line=str(start), lines=n, seed=seed,
+                   adjust_clock_drift=drift)
         try:
-            r = impl.open_reader(fmt, l1b.build_file(fmt, sc, start, lines), adjust_clock_drift=False)
-            t = tg.to_ms_array(r.get_times())
-            gate = bool(r.is_tsm_affected())
-            ch = r.get_calibrated_channels()
+            r = impl.open_reader(fmt, l1b.build_file(fmt, sc, start, lines), **kw)
+            if drift:   # channels first; the times the reader reports afterwards are the pass times
+                ch = r.get_calibrated_channels()
+                t = tg.to_ms_array(r.get_times())
+                gate = bool(r.is_tsm_affected())
+                ctx["clock_shift_ms"] = int(t[0] - first)
+            else:
+                t = tg.to_ms_array(r.get_times())
+                gate = bool(r.is_tsm_affected())
+                ch = r.get_calibrated_channels()
             # the ungated result of the very same pass: temporarily empty interval table
-            r2 = impl.open_reader(fmt, l1b.build_file(fmt, sc, start, lines), adjust_clock_drift=False)
+            r2 = impl.open_reader(fmt, l1b.build_file(fmt, sc, start, lines), **kw)
             r2.tsm_affected_intervals = {}
             ch0 = r2.get_calibrated_channels()
         except Exception as e:  # noqa
@@ -184,7 +202,8 @@ def run(res, tier, seed):
                                            dict(ctx, channel_plane=k, differing_pixels=len(bad), criterion_pixels=int(flag.sum()))))
                     break
         res.notes["gate_true_passes"] = res.notes.get("gate_true_passes", 0) + int(gate)
-        res.add_case((sc, str(iv[0]), where), True, dict(ctx, gate=gate))
+        res.add_case((sc, str(iv[0]), where, drift), True, dict(ctx, gate=gate))
+    scratch.__exit__(None, None, None)
     # ---------- the listed intervals are the published ones: search for a pass on which an edited table changes the gate ----------
     import json as _json
     import os as _os
